@@ -9,3 +9,4 @@ from . import helpers  # noqa: F401
 from . import tagify  # noqa: F401
 from . import hooks  # noqa: F401
 from . import document  # noqa: F401
+from . import serial  # noqa: F401
